@@ -91,6 +91,15 @@ def run(ctx):
                 batches = [np.round(crng.normal(0, 1, (int(crng.integers(2500, 4001)), d)) * 64) / 64 for _ in range(6)]
                 seeds = [int(crng.integers(0, 2**31)) for _ in batches]
                 ctx.count(f"{name}:large-batch-cases")
+            if name != "NNDVI" and k % 6 == 2:
+                # a small reference followed by HUGE test batches (tens of thousands of rows: chunked / blocked processing,
+                # internal row limits); the rows of a batch differ, so which rows come last matters to any positional shortcut
+                d = batches[0].shape[1]
+                sizes = [300, 40000, 70000, 300] if k == 2 else [300, int(crng.integers(33000, 50000)), 300]
+                batches = [np.round(crng.normal(0.1 * i, 1, (m, d)) * 64) / 64 for i, m in enumerate(sizes)]
+                batches = [b[np.argsort(b[:, 0], kind="stable")] for b in batches]     # ordered rows: the tail is not a fair sample
+                seeds = [int(crng.integers(0, 2**31)) for _ in batches]
+                ctx.count(f"{name}:huge-batch-cases")
             runner = {"HDDDM": run_hdm, "CDBD": run_hdm, "KdqTreeBatch": run_kdq, "NNDVI": run_nndvi}[name]
             try:
                 st0, ob0 = runner(fam, cfg, batches, seeds)
@@ -113,7 +122,7 @@ def run(ctx):
                     st1, ob1 = runner(fam, cfg, pb, seeds)
                 except Exception as e:
                     ctx.fail(detector=name, config=cfg, permutation=pname, what=f"permuted run raised {type(e).__name__}: {e}",
-                             batches=[b.tolist() for b in batches[:4]])
+                             batches=_dump(batches[:4]))
                     continue
                 ctx.traces += 1
                 ctx.case((name, repr(cfg), k, pname), "drift" in st0)
@@ -124,13 +133,13 @@ def run(ctx):
                     if not same_obs:
                         ctx.fail(detector=name, config=cfg, permutation=pname, step=i,
                                  what=f"divergence measured on batch {i} changed under a row permutation: {ob0[i]} vs {ob1[i]}"[:600],
-                                 batches=[b.tolist() for b in batches[: i + 2]], seeds=seeds[: i + 2])
+                                 batches=_dump(batches[: i + 2]), seeds=seeds[: i + 2])
                         break
                     if st0[i] != st1[i]:
                         if decisions_apply:
                             ctx.fail(detector=name, config=cfg, permutation=pname, step=i,
                                      what=f"drift decision on batch {i} changed under a row permutation: {st0[i]!r} vs {st1[i]!r}",
-                                     batches=[b.tolist() for b in batches[: i + 2]], seeds=seeds[: i + 2])
+                                     batches=_dump(batches[: i + 2]), seeds=seeds[: i + 2])
                         break   # (detect_batch=2: positional bootstrap; later references differ legitimately)
             if k == 0:
                 ctx.sample({"detector": name, "config": cfg, "batch_sizes": [len(b) for b in batches], "states": [core.dstr(s) for s in st0]})
@@ -138,6 +147,13 @@ def run(ctx):
     ctx.extra["families_without_drift"] = weak
     if len(weak) > 1:
         raise core.Infra(f"degenerate input distribution: no drifting sequence for {weak}")
+
+
+def _dump(batches):
+    """batches for a replay file; huge ones are summarised (they are regenerated from the seed by --replay)"""
+    if any(len(b) > 5000 for b in batches):
+        return {"sizes": [len(b) for b in batches], "note": "huge-batch case: regenerated from (seed, detector, case index) by the replay"}
+    return [b.tolist() for b in batches]
 
 
 def replay(ctx, path):
